@@ -27,6 +27,40 @@ CLAIMED = {
    note='Trusted: as C05. Two genuine defects found by this check were repaired in /repo (fix: commits cb5557c, cd37750); three constructs remain known findings (KF-C17-1..3).',
    technique='Lean 4 theorem by mutual structural induction over a block grammar + exhaustive table diff + differential correspondence',
    design='§7 C17'),
+ 'C04': dict(
+   text='Theorems statements_partition_tokens / statements_partition_text (all token streams / all texts): the flat statements that both split() and parse() start from partition the input in order, '
+        'nothing lost or duplicated, only a whitespace-typed tail dropped, no statement empty (composes C01 losslessness with the splitter invariant). Sampled by the oracle on the real code: '
+        'split() == stripped str() of parse() statements, non-empty pieces, increasing positions with whitespace gaps, re-split of every piece.',
+   note='Trusted: Lean kernel; splitter/lexer models tied by S-SPLIT, S-CSL, S-LEX. Re-split clause: known finding KF-C04-1 (context-sensitive lexing), classified by the lex_stable predicate. Not yet theorems: strip() non-emptiness, re-split on lex-stable pieces, grouping text preservation (C02).',
+   technique='Lean 4 theorem (state invariant of the splitter fold composed with lexer losslessness) + differential correspondence + oracle',
+   design='§7 C04'),
+ 'C15': dict(
+   text='Theorems recursion_error_never_escapes / other_errors_unchanged over the try-scope extracted from FilterStack.run (every stage inside the try), entry-point shape facts, and '
+        'later_call_gets_initialised_lexer (= C20.init_safe: no failed call can leave a published uninitialised lexer, all thread counts/schedules/raising steps). Runtime side (frame accounting, C stack) '
+        'is observed by subprocess runs: constructs x depths x recursion limits x entry points x options, each followed by an ordinary call.',
+   note='Partial by nature: CPython frame accounting and interpreter aborts cannot be exhibited by the model; only the try-scope and the singleton protocol are modelled. One genuine defect repaired (fix: 44e77d8).',
+   technique='Lean 4 theorems over control-flow IR extracted from the source + invariant over all interleavings; subprocess fault exploration for the runtime part',
+   design='§7 C15'),
+ 'C16': dict(
+   text='Theorem cert_sound (all regexes, strings, states): a certificate computed from the shape of an expression bounds the number of derivations and the size of the complete backtracking search tree by c*N^d; '
+        'rule_work_poly instantiates it for the regenerated table; rules_poly_or_template (decide) says every rule has a certificate except the two quoted-string rules of shape q(qq|\\q|[^q])*q '
+        '(unambiguous but not syntactically deterministic; open clause). Timing harness: pump strings for every rule/prefix/suffix tokenized in killable subprocesses under a budget.',
+   note='Trusted: Lean kernel; translator; assumption that CPython re explores at most the modelled search tree. Partial: the two string rules are covered by the timing harness only.',
+   technique='Lean 4 theorem by structural induction over regex AST (polynomial certificate soundness) + decide over regenerated table + timing exploration',
+   design='§7 C16'),
+ 'C19': dict(
+   text='Theorems over input normalisation with codecs as parameters: bytes+encoding, UTF-8 bytes, streams normalise to the same text as the str; latin1_fallback (non-UTF-8 bytes are read as Latin-1) with the '
+        'fallback codec extracted from the source (decide obligation). The pipeline is a function of the normalised text. Oracle on real code: all forms x encodings x entry points, random non-UTF-8 bytes, CLI runs vs format().',
+   note='Codecs, argparse and file objects are real-code-only (assumptions sampled). One genuine defect repaired (fix: b53cdb7, unicode-escape fallback).',
+   technique='Lean 4 theorems over a model of get_tokens input handling (codec-parametric) + decide over extracted constant + differential runs of the real front ends',
+   design='§7 C19'),
+ 'C20': dict(
+   text='Theorem init_safe: for every number of threads, every interleaving of their steps through get_default_instance (creation, two-step initialisation, publication, lock) and every choice of raising steps, '
+        'every returned instance is fully initialised — given the statement order extracted from the source (decide obligation init_program_publishes_last); default_initialization_resets for all configuration histories. '
+        'Real code: call histories vs fresh results, first calls failing near the recursion limit, controlled thread schedules paused inside initialisation steps, concurrent soak.',
+   note='Model granularity is one Python statement (two steps for initialisation); bytecode-level interleavings are outside. One genuine defect repaired (fix: 44e77d8).',
+   technique='Lean 4 invariant proof over a small-step semantics of n threads (all schedules, with exceptions) + decide over extracted control-flow IR + schedule/fault exploration on the real code',
+   design='§7 C20'),
 }
 TITLES = {}
 for line in open(os.path.join(VERIF, 'properties.jsonl')):
